@@ -168,7 +168,32 @@ Section Exchange.
       | OutOfFuel => OutOfFuel
       end
     end.
+
+  (* The same with a clock.  Arrivals carry the time (any unit, counted from the
+     moment the request was written) at which they become readable, in arrival
+     order.  The read deadline is fixed ONCE, before the request is written
+     (co.SetReadDeadline(readDeadline)); no later event moves it.  A read that
+     starts or is still blocked at the deadline fails with a timeout, so the
+     exchange sees exactly the arrivals that come before the deadline. *)
+  Definition arrived_before (deadline : N) (arr : list (N * bytes)) : list bytes :=
+    map snd (filter (fun a => fst a <? deadline) arr).
+
+  Definition exchange_dgram_timed (bufsize : nat) (qid : N) (deadline : N)
+             (arr : list (N * bytes)) : res bytes :=
+    exchange_dgram bufsize qid (arrived_before deadline arr).
 End Exchange.
+
+(* The deadline of an exchange: Client.Timeout when set, else Client.ReadTimeout
+   when set, else dnsTimeout (2 s); the earlier of that and the deadline of the
+   context when it has one.  Times in microseconds, 0 = not set. *)
+Definition dns_timeout_us : N := 2000000.
+Definition client_read_timeout (timeout read_timeout : N) : N :=
+  if timeout =? 0 then (if read_timeout =? 0 then dns_timeout_us else read_timeout) else timeout.
+Definition exchange_deadline (timeout read_timeout : N) (ctx : option N) : N :=
+  match ctx with
+  | Some c => N.min (client_read_timeout timeout read_timeout) c
+  | None => client_read_timeout timeout read_timeout
+  end.
 
 (* ---------- a recipe language for large streams (correspondence only) ---------- *)
 (* pseudo-random octets both sides can expand: x' = (1103515245 x + 12345) mod 2^31,
